@@ -26,10 +26,17 @@ def payload_for(ds: int, kind: str = "g", gz: bool = False) -> bytes:
         rows = "".join(f"{i},{i * (ds + 7)}.5\n" for i in range(6))       # valid CSV, wrong content
     data = rows.encode()
     if gz:
-        buf = io.BytesIO()
-        with gzipmod.GzipFile(fileobj=buf, mode="wb", mtime=0) as f:
-            f.write(data)
-        data = buf.getvalue()
+        def member(b):
+            buf = io.BytesIO()
+            with gzipmod.GzipFile(fileobj=buf, mode="wb", mtime=0) as f:
+                f.write(b)
+            return buf.getvalue()
+        if gz == "multi":
+            # an archive of two members split on a row boundary (`gzip -c day2.csv >> series.csv.gz`): still one valid file
+            cut = data.index(b"\n", len(data) // 2) + 1
+            data = member(data[:cut]) + member(data[cut:])
+        else:
+            data = member(data)
     if kind == "x":
         data = data[: len(data) // 2]                                      # truncated
     return data
@@ -193,7 +200,7 @@ def run_loader(home, ds, script, dl=True, even=False, retries=3, gz=False, crash
                 r = base.load_csv_dataset_from_remote(remote=remote, dataset_filename=slot_name(ds), dataset_folder=FOLDER,
                                                       data_home=home, download_if_missing=dl,
                                                       download_even_if_available=even, validate_checksum=True,
-                                                      n_retries=retries, delay=0.0, gzip=gz)
+                                                      n_retries=retries, delay=0.0, gzip=bool(gz))
                 out = {"ok": np.asarray(r).tolist()}
             except Exception as e:  # noqa
                 out = {"err": err_kind(e)}
@@ -255,7 +262,7 @@ def run_two_threads(home, gz=False):
             r = base.load_csv_dataset_from_remote(remote=remote_for(ds, gz), dataset_filename=slot_name(ds),
                                                   dataset_folder=FOLDER, data_home=home, download_if_missing=True,
                                                   download_even_if_available=False, validate_checksum=True, n_retries=3,
-                                                  delay=0.0, gzip=gz)
+                                                  delay=0.0, gzip=bool(gz))
             out[me] = "good" if np.array_equal(np.asarray(r), good_array(ds)) else "other"
         except BaseException as e:  # noqa
             out[me] = "raised " + type(e).__name__
